@@ -217,6 +217,9 @@ mod recursion;
 #[cfg(test)]
 mod test_arithmetic;
 
+#[cfg(feature = "verif-hooks")]
+pub mod verif_hooks;
+
 // Re-export public types
 pub use catalog::Catalog;
 pub use code_generator::CodeGenerator;
@@ -1228,6 +1231,11 @@ impl IQLEngine {
             let mut codegen = CodeGenerator::new();
             // Load base inputs AND results from previously computed shared views
             self.load_inputs_into_codegen(&mut codegen, &results);
+            #[cfg(feature = "verif-hooks")]
+            verif_hooks::record(verif_hooks::Event::SharedView {
+                name: view_name.clone(),
+                ir: view_ir.clone(),
+            });
 
             let view_results = codegen.execute(view_ir)?;
 
@@ -1657,6 +1665,20 @@ impl IQLEngine {
             self.load_inputs_into_codegen(&mut codegen, &accumulated_results);
 
             let is_recursive = recursive_info.get(i).is_some_and(Option::is_some);
+
+            #[cfg(feature = "verif-hooks")]
+            verif_hooks::record(verif_hooks::Event::Rule {
+                index: i,
+                head: head_name.clone(),
+                recursive_rel: recursive_info.get(i).cloned().flatten(),
+                num_workers: self.num_workers,
+                semiring: format!("{semiring:?}"),
+                ir: if is_recursive {
+                    unoptimized_ir_nodes[i].clone()
+                } else {
+                    self.ir_nodes[i].clone()
+                },
+            });
 
             // Use unoptimized IR for recursive nodes, optimized for others
             let (exec_result, rule_us) = collector.time(|| {
